@@ -149,7 +149,7 @@ def select(ctx, holes, per_key):
     return chosen
 
 
-def confinement_level(ctx, step, cases):
+def confinement_level(ctx, step, cases, selftest=False):
     cfile = ctx.work / f"{step}_cases.ndjson"
     rig.write_ndjson(cfile, cases)
     ofile = ctx.work / f"{step}_obs.ndjson"
@@ -157,10 +157,36 @@ def confinement_level(ctx, step, cases):
     obs = rig.read_ndjson(ofile)
     if len(obs) != len(cases):
         raise Infra(f"conf driver returned {len(obs)} observations for {len(cases)} cases")
+    # sensitivity self-test, confinement level (same TLC runs, ids >= 9000000): in a synchronised HTML
+    # text slot the output of the harmless value "alert" is replaced by the output of the trusted
+    # native.HTML value (i.e. what a missing escaper would have written): it must be judged bad.
+    st = []
+    if selftest:
+        for o in obs:
+            if len(st) >= 3:
+                break
+            if o["pt"]["ctx"] == "HTML" and o["pt"]["slot"] == "text" and o["pt"]["root"] == "none" and o["via"] == "direct":
+                donor = next((x for x in o["outs"] if x["c"] == "html" and x["oc"] == "ok"), None)
+                victim = next((x for x in o["outs"] if x["c"] == "word" and x["oc"] == "ok"), None)
+                if donor and victim:
+                    c = json.loads(json.dumps(o))
+                    c["id"] = 9000001 + len(st)
+                    c["outs"][victim["v"]]["out"] = donor["out"]
+                    c["_victim"] = victim["v"] + 1
+                    st.append(c)
+        if not st:
+            raise Infra("sensitivity self-test: no synchronised HTML text hole to corrupt")
     n = max(2, min(rig.NCPU - 4, 8))
-    shard = max(30, -(-len(obs) // n))
-    judged = run_shards(ctx, step, "Trace_AEConfine", obs, "judged.ndjson", shard)
-    return obs, judged
+    shard = max(30, -(-(len(obs) + len(st)) // n))
+    judged = run_shards(ctx, step, "Trace_AEConfine", obs + st, "judged.ndjson", shard)
+    if selftest:
+        sj = judged[len(obs):]
+        rejected = sum(1 for c, j in zip(st, sj) if any(b["j"] == c["_victim"] for b in j["bad"]))
+        nctx, rctx = ctx.notes.get("selftest_ctx", (0, 0))
+        ctx.cov["sensitivity_selftest"] = {"corrupted": len(st) + nctx, "rejected": rejected + rctx}
+        if rejected < len(st):
+            raise Infra(f"sensitivity self-test failed: confinement {rejected}/{len(st)} corrupted outputs rejected")
+    return obs, judged[:len(obs)]
 
 
 def bads_of(obs, judged):
@@ -234,7 +260,7 @@ def run(ctx, only_case=None):
 
 
 def run_cases(ctx, ccases, replaying=False):
-    cobs, judged = confinement_level(ctx, "conf", ccases)
+    cobs, judged = confinement_level(ctx, "conf", ccases, selftest=not replaying)
     tot = collections.Counter()
     for j in judged:
         for k in ("compared", "notshown", "refundef", "trustedchanged"):
@@ -278,45 +304,10 @@ def run_cases(ctx, ccases, replaying=False):
         conf_u = [b for b in unknown if json.dumps(b["sig"], sort_keys=True) in again]
         ctx.cov["unreproduced"] = len({json.dumps(b["sig"], sort_keys=True) for b in unknown}) - len({json.dumps(b["sig"], sort_keys=True) for b in conf_u})
         confirmed += conf_u
-    # 4. sensitivity self-test: corrupted observations must be rejected
-    if not replaying:
-        selftest(ctx, cobs, judged)
-
     def rw(rdir, b):
         (rdir / "case.json").write_text(json.dumps(b["case"]))
         (rdir / "source.html").write_text(show_doc(b["case"]["frags"], b["case"]["hole"]))
     return ctx.report(confirmed + hp, replay_writer=rw)
-
-
-def selftest(ctx, cobs, judged):
-    """(1) an untrusted value whose output is replaced by a structure-changing output must be judged bad;
-       (2) a real context replaced by another one must be flagged incompatible at the context level."""
-    st = []
-    for o, j in zip(cobs, judged):
-        if len(st) >= 3:
-            break
-        if j["trustedchanged"] == 0:
-            continue
-        outs = o["outs"]
-        donors = [x for x in outs if x["t"] == 1 and x["oc"] == "ok" and x["b"] - 1 != x["v"] and outs[x["b"] - 1]["oc"] == "ok"]
-        victim = next((x for x in outs if x["c"] == "word" and x["oc"] == "ok"), None)
-        if not donors or victim is None or any(b["j"] - 1 == victim["v"] for b in j["bad"]):
-            continue
-        for d in donors:
-            c = json.loads(json.dumps(o))
-            c["id"] = 900000 + len(st)
-            c["outs"][victim["v"]]["out"] = d["out"]
-            c["_victim"] = victim["v"] + 1
-            st.append(c)
-            break
-    if not st:
-        raise Infra("sensitivity self-test: no record to corrupt (no trusted value changed a structure)")
-    out = run_shards(ctx, "selftest_conf", "Trace_AEConfine", st, "judged.ndjson", len(st))
-    rejected = sum(1 for c, j in zip(st, out) if any(b["j"] == c["_victim"] for b in j["bad"]))
-    nctx, rctx = ctx.notes.get("selftest_ctx", (0, 0))
-    ctx.cov["sensitivity_selftest"] = {"corrupted": len(st) + nctx, "rejected": rejected + rctx}
-    if rejected < len(st):
-        raise Infra(f"sensitivity self-test failed: confinement {rejected}/{len(st)}")
 
 
 def replay(ctx, path):
